@@ -436,41 +436,54 @@ func c13(r *core.Run) {
 			if !ok || c == emission || c == getCall || c == mintCall {
 				return
 			}
-			cal := p.Callees(c)
-			if len(cal) != 1 || len(p.Summary(cal[0]).Bank) == 0 {
+			cals := p.Callees(c)
+			if len(cals) == 0 {
 				return
 			}
-			baseIdx := -1
-			args := c.Call.Args
-			off := 0
-			if c.Call.IsInvoke() {
-				off = 1
-			}
-			for i, a := range args {
-				if a.Type().String() == "int64" && isBase(a) {
-					baseIdx = i + off
-				}
-			}
-			// a dispatcher: a callee that itself calls several functions moving coins
-			sub := 0
-			allInstrs(cal[0], func(in2 ssa.Instruction) {
-				if c2, ok := in2.(*ssa.Call); ok {
-					if cc := p.Callees(c2); len(cc) == 1 && len(p.Summary(cc[0]).Bank) > 0 {
-						sub++
+			if len(cals) > 1 {
+				// one call site dispatching over a table of split functions: every entry is a split
+				for _, one := range cals {
+					if len(p.Summary(one).Bank) == 0 {
+						return
 					}
 				}
-			})
-			if sub >= 2 && depth < 2 {
-				if baseIdx < 0 || baseIdx >= len(cal[0].Params) {
-					r.Violation("C13/R1", "blockmint:split-base:"+cal[0].Name(), p.InstrPos(c), "the distributing helper is not handed the amount minted")
-					return
-				}
-				prm := cal[0].Params[baseIdx]
-				checkSplits(cal[0], func(v ssa.Value) bool { return v == ssa.Value(prm) }, depth+1)
+			} else if len(p.Summary(cals[0]).Bank) == 0 {
 				return
 			}
-			nSplit++
-			r.Check(baseIdx >= 0, "C13/R1", "blockmint:split-base:"+cal[0].Name(), p.InstrPos(c), "split base is the minted value", "a split is computed from a base other than the amount minted")
+			for _, one := range cals {
+				cal := []*ssa.Function{one}
+				baseIdx := -1
+				args := c.Call.Args
+				off := 0
+				if c.Call.IsInvoke() {
+					off = 1
+				}
+				for i, a := range args {
+					if a.Type().String() == "int64" && isBase(a) {
+						baseIdx = i + off
+					}
+				}
+				// a dispatcher: a callee that itself calls several functions moving coins
+				sub := 0
+				allInstrs(cal[0], func(in2 ssa.Instruction) {
+					if c2, ok := in2.(*ssa.Call); ok {
+						if cc := p.Callees(c2); len(cc) == 1 && len(p.Summary(cc[0]).Bank) > 0 {
+							sub++
+						}
+					}
+				})
+				if sub >= 2 && depth < 2 {
+					if baseIdx < 0 || baseIdx >= len(cal[0].Params) {
+						r.Violation("C13/R1", "blockmint:split-base:"+cal[0].Name(), p.InstrPos(c), "the distributing helper is not handed the amount minted")
+						continue
+					}
+					prm := cal[0].Params[baseIdx]
+					checkSplits(cal[0], func(v ssa.Value) bool { return v == ssa.Value(prm) }, depth+1)
+					continue
+				}
+				nSplit++
+				r.Check(baseIdx >= 0, "C13/R1", "blockmint:split-base:"+cal[0].Name(), p.InstrPos(c), "split base is the minted value", "a split is computed from a base other than the amount minted")
+			}
 		})
 	}
 	checkSplits(unit, func(a ssa.Value) bool {
